@@ -14,6 +14,9 @@ const LUAU_RC_FILE_NAME: &str = ".luaurc";
 pub(crate) struct LuauConfiguration {
     #[serde(default)]
     pub(crate) aliases: HashMap<String, PathBuf>,
+    /// where this configuration was read from
+    #[serde(skip)]
+    pub(crate) location: Option<PathBuf>,
 }
 
 fn find_luau_configuration_private(
@@ -51,6 +54,7 @@ fn find_luau_configuration_private(
                             log::trace!(" ⨽ parsed alias `{}` (`{}`)", key, value.display())
                         })
                         .collect();
+                    config.location = Some(config_path.clone());
 
                     Some(config)
                 })
